@@ -1123,13 +1123,20 @@ class Engine:
     def find_impl_fn(self, method, self_ty, crate_hint, trait_prefix=None, trait_contains=None):
         """find a workspace impl method by self type (+ optional trait filter)"""
         cands = []
+
+        def nolt(ty):
+            """a type with its lifetime arguments removed (`Reader<'a>` in the impl header, `Reader<'_>` at the use)"""
+            ty = re.sub(r"'[A-Za-z_]\w*\s*,\s*", "", ty or "")
+            ty = re.sub(r"<'[A-Za-z_]\w*>", "", ty)
+            return re.sub(r"'[A-Za-z_]\w* ", "", ty)
+        self_ty = nolt(self_ty)
         for im in self.facts.impls:
-            full = im["crate"] + "::" + im["self_ty"]
-            ok = (full == self_ty) or (im["self_ty"] == self_ty and im["crate"] == crate_hint) or \
-                 (im["self_ty"] == self_ty and "::" in self_ty and self_ty.split("::")[0] not in self.facts.crates and False)
+            im_ty = nolt(im["self_ty"])
+            full = im["crate"] + "::" + im_ty
+            ok = (full == self_ty) or (im_ty == self_ty and im["crate"] == crate_hint)
             if not ok:
                 # a type printed from inside its own crate has no crate prefix; from outside it has one
-                if self_ty.endswith("::" + im["self_ty"]) and self_ty.split("::")[0] == im["crate"]:
+                if self_ty.endswith("::" + im_ty) and self_ty.split("::")[0] == im["crate"]:
                     ok = True
             if not ok:
                 continue
